@@ -25,16 +25,43 @@ def describe(tier):
                 f"rotating through {BASE_LABELS} x {b['cers']} content evaluation results. Oracle: no exception; every faulty segment-level / "
                 "free-text node is reported IS_OPTIONAL (with or without FILLED/EMPTY suffix, I4) with a non-empty reason as hint; a faulty "
                 "value-pool entry is offered; the result of every OTHER node is identical to the run on the AHB in which each invalid "
-                "expression is replaced by 'Kann' (same exception class if that run raises). Non-trivial = >= 2 simultaneous faults.",
+                "expression is replaced by 'Kann' (same exception class if that run raises). E3 family: "
+                f"{len(ORD_SHAPES)} shapes x every fault site x 4 invalid expressions (multi-part with the invalid part first / last, single, nested) with SUSPENDING "
+                "evaluators under all completion orders with <= 2 (thorough 4) deviations on the virtual event loop: every schedule's result equals the zero-yield run, "
+                "which equals the run with non-suspending evaluators (judged by the oracle above). Non-trivial = >= 2 simultaneous faults / schedules deviating from oldest-first.",
         "bounds": b,
         "exhaustive": True,
         "assumptions": ["I4: 'reported optional' = IS_OPTIONAL with or without suffix"],
     }
 
 
+# E3 family: the invalid expression raises inside one part / node while siblings are suspended
+ORD_SHAPES = [(("G", (), (("S", ()), ("S", ()))),), (("G", (("G", (), ()),), (("S", ("F",)),)),), (("G", (), (("S", ("F", "F")),)),),
+              (("G", (), ()), ("G", (), (("S", ("P",)),)))]
+ORD_INVALID = [3, 4, 0, 8]  # multi-part (invalid part first / last), single part, nested
+
+
+def _orders_model(item):
+    shape = ORD_SHAPES[item["shape"]]
+    faulty = _model(shape, item["rot"], 1)
+    sites = _sites(faulty)
+    kind, node, i = sites[item["site"] % len(sites)]
+    if kind == "node":
+        node["expr"] = INVALID[ORD_INVALID[item["inv"]]]
+    else:
+        node["entries"][i]["expr"] = INVALID[ORD_INVALID[item["inv"]]]
+    return faulty
+
+
 def plan(tier, seed):
     b = BOUNDS[tier]
     items = []
+    for si, shape in enumerate(ORD_SHAPES):
+        nsites = len(_sites(_model(shape, 0, 1)))
+        for site in range(nsites):
+            for inv in range(len(ORD_INVALID)):
+                items.append({"fam": "orders", "shape": si, "site": site, "inv": inv, "rot": (site + inv) % 3, "cer": inv % 2,
+                              "order_bound": 2 if tier == "quick" else 4})
     for si, s in enumerate(T.shapes(b["nodes"])):
         for cer in range(b["cers"]):
             for inv in range(b["invalid"]):
@@ -125,9 +152,38 @@ def check_case(shape, subset, inv, cer, base_rot=0, variant=0):
     return out
 
 
+def _orders_violations(item, base, out, plain):
+    import json
+
+    vs = []
+    if out != base:
+        vs.append(("depends-on-completion-order", json.loads(base), json.loads(out)))
+    if base != plain:
+        vs.append(("suspending-evaluators-change-the-result", json.loads(plain), json.loads(base)))
+    return vs
+
+
 def run_item(item):
     H.init()
     r = Result()
+    if item.get("fam") == "orders":
+        import json
+
+        faulty = _orders_model(item)
+        vloop, factory_for, observe, base, exp = H.explore_validation(faulty, item["cer"], True, item["order_bound"])
+        plain = json.dumps(list(H.V.run_validation(faulty, H.env(item["cer"]), True)), ensure_ascii=False, default=repr)
+        r.evaluations += exp.schedules
+        r.states += exp.decision_points
+        r.transitions += exp.decision_points
+        r.traces += exp.schedules
+        r.nontrivial += max(0, len(exp.completion_traces) - 1)
+        r.stat("schedules", exp.schedules)
+        for out in set(exp.outcomes) | {base}:
+            case = {"orders": item, "choices": exp.first_schedule_of_outcome.get(out, []), "zero_yield": out not in exp.outcomes}
+            for kind, e, o in _orders_violations(item, base, out, plain):
+                r.violation(kind, case, e, o, f"invalid expression {INVALID[ORD_INVALID[item['inv']]]!r} at site {item['site']} of {ORD_SHAPES[item['shape']]}")
+        r.sample({"orders": item, "schedules": exp.schedules})
+        return r
     shape = [s for s in T.shapes(item["nodes"])][item["shape"]]
     for variant in (0, 1):
         nsites = len(_sites(_model(shape, 0, variant)))
@@ -153,4 +209,13 @@ def _tup(x):
 
 
 def replay(case):
+    if "orders" in case:
+        import json
+
+        item = case["orders"]
+        faulty = _orders_model(item)
+        vloop, factory_for, observe, base, _ = H.explore_validation(faulty, item["cer"], True, "none")
+        plain = json.dumps(list(H.V.run_validation(faulty, H.env(item["cer"]), True)), ensure_ascii=False, default=repr)
+        out = base if case.get("zero_yield") else observe(vloop.run_schedule(factory_for(False), case["choices"]))
+        return [{"kind": k, "case": case, "expected": e, "observed": o} for k, e, o in _orders_violations(item, base, out, plain)]
     return check_case(_tup(case["shape"]), tuple(case["subset"]), case["inv"], case["cer"], case.get("base_rot", 0), case.get("variant", 0))
